@@ -52,6 +52,9 @@ def extract(ctx, extra_units=None):
     exe = ctx.path("catalogue")
     rc, out = ctx.cxx(src, exe, cfg="g14", opt="-O0", flags=[os.path.join(core.HARNESS, "noub.cc")])
     if rc != 0:
+        undef = [l for l in out.splitlines() if "undefined reference to" in l and "au::" in l]
+        if undef:
+            raise core.LibraryRejects("a program reading the labels of the library's and of user-defined units does not link at C++14: " + undef[0][-300:])
         raise core.ToolError("catalogue extraction does not compile:\n" + out[-3000:])
     recs = ctx.run_ndjson(exe)
     cat, prefixes = {}, {}
